@@ -30,7 +30,16 @@ func (s *State) evalUnquoteCalls(quoted ast.Node) ast.Node {
 			return node
 		}
 		unquoted := s.evalInternal(call.Parameters[0])
-		return convertObjectToASTNode(unquoted)
+		converted := convertObjectToASTNode(unquoted)
+		if converted == nil {
+			// No syntax for that value: an error() call in the tree instead of a nil node (which crashed
+			// the printer and the evaluator's callers with a nil pointer dereference).
+			if e, isErr := unquoted.(object.Error); isErr {
+				return s.MacroErrorf("unquote: %s", e.Value)
+			}
+			return s.MacroErrorf("unquote: can't turn %s into syntax", unquoted.Type())
+		}
+		return converted
 	})
 }
 
